@@ -160,16 +160,35 @@ def real_cpu_bin(c):
 
 
 def gen_strides(rng):
-    nz = rng.randint(0, 5)
-    uz = sorted(rng.sample(range(-3, 9), nz))
+    """sorted runs (the contract of `_sort_and_stride`) plus everything the bare function accepts: ids absent from the
+    array, values absent from the ids (in front, between, as a tail), NaN / +-inf on either side (`==` is IEEE), repeated
+    and unsorted ids, unsorted arrays, empty arrays"""
+    pool = rng.choice([list(range(-3, 9)), [-2.5, -0.75, 0.0, 0.5, 1.5, 2.25, 3.0, 7.0], [0.0, 1.0, 2.0, 3.0, 4.0]])
+    nz = rng.randint(0, min(6, len(pool)))
+    uz = sorted(rng.sample(pool, nz))
     kind = rng.random()
     fz = []
     for u in uz:
-        fz += [u] * rng.choice([0, 1, 1, 2, 3])
-    if kind < 0.25:
-        fz += [rng.choice(range(9, 12))] * rng.randint(0, 2)       # sorted tail of values not in uz
+        fz += [u] * rng.choice([0, 1, 1, 2, 3, 5])
+    if kind < 0.15:
+        fz += [max(pool) + 1 + rng.randint(0, 2)] * rng.randint(0, 3)        # sorted tail of values not in uz
+    elif kind < 0.3:
+        fz += [INF] * rng.randint(0, 2) + [NAN] * rng.randint(1, 3)          # non-finite tail (not stripped)
     elif kind < 0.4:
-        rng.shuffle(fz)                                            # contract broken: not sorted
+        rng.shuffle(fz)                                                      # contract broken: not sorted
+    elif kind < 0.5:
+        fz = [min(pool) - 1.0] * rng.randint(1, 2) + fz                      # a leading run that matches no id
+    elif kind < 0.6 and uz:
+        k = rng.randrange(len(uz))                                           # an id is dropped: its run blocks the pointer
+        uz = uz[:k] + uz[k + 1:]
+    elif kind < 0.7:
+        uz = uz + [rng.choice([NAN, INF, -INF])]                             # a non-finite id
+        if rng.random() < 0.5:
+            fz = fz + [uz[-1]] * rng.randint(1, 2)
+    elif kind < 0.8 and uz:
+        uz = uz + [rng.choice(uz)]                                           # repeated / unsorted ids
+        if rng.random() < 0.5:
+            rng.shuffle(uz)
     return dict(fz=[float(v) for v in fz], uz=[float(v) for v in uz])
 
 
@@ -575,11 +594,26 @@ def real_prox_line(c):
 
 
 def gen_convolve(rng):
-    kh, kw = rng.choice([1, 3, 3, 5]), rng.choice([1, 3, 3, 5])
-    # even kernels are rejected by the public wrapper; the bare kernel then reads out of bounds (undefined
-    # behaviour in numba, `err:index` in the model), so they are not generated
-    data = grid(rng, [0.0, 1.0, 2.0, -1.0, 0.5, NAN, 4.0], 7, 7)
-    kernel = np.array(pick_vals(rng, [0.0, 1.0, 1.0, 2.0, -1.0, 0.5], kh * kw)).reshape(kh, kw)
+    """odd kernel shapes 1..7 (square and not), rasters 1x1..9x9 (kernel smaller than, equal to and larger than the raster
+    in either axis, 1xN / Nx1), small integers and dyadic fractions (exact in float32), NaN and +-inf cells in the raster
+    (`0 * inf`, `inf - inf`), zero / negative / fractional and occasionally NaN / inf weights.
+    Even kernels are rejected by the public wrapper; the bare kernel then reads out of bounds (undefined behaviour in numba,
+    `Ctl.err` in the model: Proofs/ILFocal.lean `convolve2d_even_err`), so they are not generated."""
+    kh, kw = rng.choice([1, 3, 3, 5, 7]), rng.choice([1, 3, 3, 5, 7])
+    kind = rng.random()
+    if kind < 0.55:                      # at least one interior cell
+        h, w = rng.randint(kh, kh + 4), rng.randint(kw, kw + 4)
+    elif kind < 0.7:                     # exactly one interior row / column, or none
+        h, w = rng.choice([kh - 1, kh, kh]), rng.choice([kw - 1, kw, kw])
+    else:
+        h, w = rng.randint(1, 9), rng.randint(1, 9)
+    h, w = max(h, 1), max(w, 1)
+    dpool = rng.choice([[0.0, 1.0, 2.0, -1.0, 0.5, 4.0], [0.0, 1.0, 2.0, -1.0, 0.5, NAN, 4.0],
+                        [1.0, 2.0, 3.0, INF, -INF, NAN, 0.0, -0.25], [1.0]])
+    kpool = rng.choice([[0.0, 1.0, 1.0, 2.0, -1.0, 0.5], [1.0], [0.0, 1.0], [0.25, -0.5, 3.0, 0.0, NAN],
+                        [0.0, 1.0, INF, -2.0]])
+    data = np.array(pick_vals(rng, dpool, h * w), dtype=np.float64).reshape(h, w)
+    kernel = np.array(pick_vals(rng, kpool, kh * kw)).reshape(kh, kw)
     return dict(data=data.tolist(), kernel=kernel.tolist())
 
 
